@@ -1023,6 +1023,30 @@ func ruleBijection(c *Ctx, rule string) {
 			if !ok || (bo.Op != token.NEQ && bo.Op != token.EQL) {
 				continue
 			}
+			// the table may be handed to the predicate as an argument (isInvolutionAt(p.pair, l))
+			pairLoad := func(v ssa.Value) (ssa.Value, bool) {
+				if idx, ok := pairLoad(v); ok {
+					return idx, true
+				}
+				u, isU := v.(*ssa.UnOp)
+				if !isU || u.Op != token.MUL {
+					return nil, false
+				}
+				ia, isIA := u.X.(*ssa.IndexAddr)
+				if !isIA {
+					return nil, false
+				}
+				tp, isP := ia.X.(*ssa.Parameter)
+				if !isP {
+					return nil, false
+				}
+				for pi, q := range h.Params {
+					if q == tp && pi < len(call.Call.Args) && loadOfField(call.Call.Args[pi], pkg, "Pairing", "pair") {
+						return ia.Index, true
+					}
+				}
+				return nil, false
+			}
 			for _, side := range []ssa.Value{bo.X, bo.Y} {
 				if i1, ok := pairLoad(side); ok {
 					if i2, ok := pairLoad(stripConv(i1)); ok {
@@ -1270,7 +1294,13 @@ func ruleQTravel(c *Ctx, rule string, targets [][2]string) {
 		key := funcName(fn) + "/Q-stored-wherever-L-is"
 		fields := map[string]token.Pos{}
 		whole := false
-		for _, b := range fn.Blocks {
+		var blocks []*ssa.BasicBlock
+		for _, g := range privateReach(fn) { // the method and the private helpers it hands the columns to
+			if g.Pkg == fn.Pkg {
+				blocks = append(blocks, g.Blocks...)
+			}
+		}
+		for _, b := range blocks {
 			for _, ins := range b.Instrs {
 				st, ok := ins.(*ssa.Store)
 				if !ok {
@@ -1723,6 +1753,44 @@ func ruleNoSkip(c *Ctx, rule string, targets [][2]string) {
 		for _, lp := range naturalLoops(fn) {
 			if !lp.body[readCall.Block()] {
 				continue
+			}
+			// the loop is steered by a flag (for isFeature := false; !isFeature; { ... isFeature = line[0] != '#' }):
+			// one point per value the flag receives inside the loop that lets the loop go round again
+			if ifh, ok := lp.head.Instrs[len(lp.head.Instrs)-1].(*ssa.If); ok {
+				cond, contWhen := ifh.Cond, lp.body[lp.head.Succs[0]] && lp.head.Succs[0] != lp.head
+				if u, ok := cond.(*ssa.UnOp); ok && u.Op == token.NOT {
+					cond, contWhen = u.X, !contWhen
+				}
+				if flag, ok := cond.(*ssa.Phi); ok && flag.Block() == lp.head {
+					for _, lf := range headerLeaves(lp, flag) {
+						switch v := lf.v.(type) {
+						case *ssa.Const:
+							if v.Value != nil && v.Value.Kind() == constant.Bool && constant.BoolVal(v.Value) == contWhen {
+								pts = append(pts, point{blk: lf.from, pos: readCall.Pos(), how: "loops back to the read"})
+							}
+						case *ssa.BinOp:
+							e := 1
+							if contWhen {
+								e = 0
+							}
+							pts = append(pts, point{blk: lf.from, pos: readCall.Pos(), how: "loops back to the read", own: &branchFact{v, e}})
+						default:
+							pt := point{blk: lf.from, pos: readCall.Pos(), how: "loops back to the read"}
+							// an empty case: the value comes straight from the block that tested the case
+							if ifi, ok := lf.from.Instrs[len(lf.from.Instrs)-1].(*ssa.If); ok {
+								if bo, ok := ifi.Cond.(*ssa.BinOp); ok {
+									for e, sblk := range lf.from.Succs {
+										if sblk == lf.to {
+											pt.own = &branchFact{bo, e}
+										}
+									}
+								}
+							}
+							pts = append(pts, pt)
+						}
+					}
+					continue
+				}
 			}
 			for _, p := range lp.head.Preds {
 				if lp.body[p] {
